@@ -8,6 +8,7 @@ package endpoint
 import (
 	"bytes"
 	"crypto/ed25519"
+	"io"
 	"io/ioutil"
 	"net"
 	"net/http"
@@ -187,9 +188,34 @@ func (w *eeWorld) connect(addr string) (*eeConn, hap.Session) {
 	return c, w.ctx.GetSessionForConnection(c)
 }
 
+// eeBodySplit > 0 delivers request bodies in two pieces, the first of that many bytes (a body
+// that arrives in two network segments or frames); 0 delivers them in one Read.
+var eeBodySplit int
+
+type eeSplitBody struct {
+	parts [][]byte
+}
+
+func (b *eeSplitBody) Read(p []byte) (int, error) {
+	for len(b.parts) > 0 && len(b.parts[0]) == 0 {
+		b.parts = b.parts[1:]
+	}
+	if len(b.parts) == 0 {
+		return 0, io.EOF
+	}
+	n := copy(p, b.parts[0])
+	b.parts[0] = b.parts[0][n:]
+	return n, nil
+}
+func (b *eeSplitBody) Close() error { return nil }
+
 func eeRequest(path, remote string, body []byte) *http.Request {
-	return &http.Request{Method: "POST", URL: &url.URL{Path: path}, RemoteAddr: remote,
-		Body: ioutil.NopCloser(bytes.NewBuffer(body)), Header: http.Header{}}
+	r := &http.Request{Method: "POST", URL: &url.URL{Path: path}, RemoteAddr: remote,
+		Body: ioutil.NopCloser(bytes.NewBuffer(body)), Header: http.Header{}, ContentLength: int64(len(body))}
+	if eeBodySplit > 0 && eeBodySplit < len(body) {
+		r.Body = &eeSplitBody{parts: [][]byte{append([]byte{}, body[:eeBodySplit]...), append([]byte{}, body[eeBodySplit:]...)}}
+	}
+	return r
 }
 
 // post sends one request to a handler and returns the recorder and whether it panicked.
